@@ -70,6 +70,7 @@ type c20Opts struct {
 	InterCLI  bool   // the certificate is issued by an intermediate CA that only `verify -i` supplies
 	Rerun     bool   // the last step is first carried out with a very noisy command, then again for real (same link path, shorter file)
 	NonASCII  bool   // product file names with non-ASCII characters
+	OddNames  bool   // step names and the metadata directory contain characters of file-name patterns
 	Resign    bool   // the layout file is first signed as an earlier revision, then revised in place (stale signatures stay) and signed again with the same keys
 }
 
@@ -161,7 +162,13 @@ func runC20(c *core.Ctx) {
 		if o.DSSE && o.NonASCII {
 			o.Noisy = 1 // control characters and non-ASCII characters in one DSSE payload
 		}
+		o.OddNames = r.Intn(4) == 0
+		metaName := "meta"
+		if o.OddNames {
+			metaName = "meta[1]"
+		}
 		outFile := func(step string) string {
+			step = strings.NewReplacer("[", "-", "]", "").Replace(step) // the product name is used as a rule pattern, too
 			if o.NonASCII {
 				return step + "-naïve-出力.out"
 			}
@@ -175,7 +182,7 @@ func runC20(c *core.Ctx) {
 		w := &c20World{root: root, work: filepath.Join(root, "work"), final: filepath.Join(root, "final"), keys: filepath.Join(root, "keys"), o: o}
 		w.meta = w.work
 		if o.MetaDir {
-			w.meta = filepath.Join(w.work, "meta")
+			w.meta = filepath.Join(w.work, metaName)
 		}
 		mkdirs(w.work, w.meta, w.final, w.keys, filepath.Join(w.work, "proj"))
 		cl := &cli{bin: bin}
@@ -217,6 +224,9 @@ func runC20(c *core.Ctx) {
 		}
 		// ---- carry out the steps through the CLI -------------------------------------
 		stepNames := []string{"fetch", "build", "pack"}[:o.Steps]
+		if o.OddNames {
+			stepNames = []string{"fetch[1]", "build[x86]", "pack[all]"}[:o.Steps]
+		}
 		fail := ""
 		var lastProducts map[string]string
 		for s, name := range stepNames {
@@ -241,7 +251,7 @@ func runC20(c *core.Ctx) {
 				common = append(common, "-c", certFile)
 			}
 			if o.MetaDir {
-				common = append(common, "-d", "meta")
+				common = append(common, "-d", metaName)
 			}
 			if o.Strip {
 				common = append(common, "-l", "proj/")
@@ -305,7 +315,11 @@ func runC20(c *core.Ctx) {
 				break
 			}
 			if record {
-				if ls, _ := filepath.Glob(filepath.Join(w.meta, ".*.link-unfinished")); len(ls) > 0 {
+				left := false
+				for _, n := range listDir(w.meta) {
+					left = left || strings.HasSuffix(n, ".link-unfinished")
+				}
+				if left {
 					fail = "record stop left the unfinished link behind"
 					break
 				}
@@ -520,7 +534,7 @@ func runC20(c *core.Ctx) {
 				t := &c20World{root: croot, work: filepath.Join(croot, "work"), final: filepath.Join(croot, "final"), keys: filepath.Join(croot, "keys"), layout: filepath.Join(croot, "root.layout"), o: o}
 				t.meta = t.work
 				if o.MetaDir {
-					t.meta = filepath.Join(t.work, "meta")
+					t.meta = filepath.Join(t.work, metaName)
 				}
 				for k := range owners {
 					t.ownerPub = append(t.ownerPub, filepath.Join(t.keys, fmt.Sprintf("owner%d.pub", k)))
@@ -654,7 +668,7 @@ func init() {
 	core.Register(&core.Property{
 		ID:    "C20",
 		Level: "exploration",
-		Rule: "seeded supply chains of 1-3 steps carried out ONLY through the built `in-toto` binary: per step `run` or `record start` / (changes by hand) / `record stop`, options drawn from {product names with non-ASCII characters, layout file signed as an earlier revision / revised in place / signed again with the same keys, --use-dsse, -c certificate with the CA in the layout (the certificate issued directly or by an intermediate CA that only `verify -i` supplies), -l strip prefix, -d metadata directory, --run-dir, -x, -e exclude}, step commands that are quiet / print several lines / write to stderr only; in a third of the chains the last step is carried out twice (a noisy first attempt, then the real one, both writing the same link path); layout written by the harness and signed with `in-toto sign` by 1-2 keys; link names checked against the verifier's naming; then `verify` on the honest chain and after each of 13 single tamperings (product byte, extra file, link content, link signature, link missing, link renamed, layout content, layout signed by an outsider, wrong -k, extra -k of a non-signer, an unloadable / missing key file listed before a good one, expired layout), each time compared with library verification of a byte-identical copy; `sign --verify` with signer / outsider keys, `key id` on a key and on a non-key, `match-products` on untouched and locally changed products compared with InTotoMatchProducts. " +
+		Rule: "seeded supply chains of 1-3 steps carried out ONLY through the built `in-toto` binary: per step `run` or `record start` / (changes by hand) / `record stop`, options drawn from {step names and metadata directory with brackets, product names with non-ASCII characters, layout file signed as an earlier revision / revised in place / signed again with the same keys, --use-dsse, -c certificate with the CA in the layout (the certificate issued directly or by an intermediate CA that only `verify -i` supplies), -l strip prefix, -d metadata directory, --run-dir, -x, -e exclude}, step commands that are quiet / print several lines / write to stderr only; in a third of the chains the last step is carried out twice (a noisy first attempt, then the real one, both writing the same link path); layout written by the harness and signed with `in-toto sign` by 1-2 keys; link names checked against the verifier's naming; then `verify` on the honest chain and after each of 13 single tamperings (product byte, extra file, link content, link signature, link missing, link renamed, layout content, layout signed by an outsider, wrong -k, extra -k of a non-signer, an unloadable / missing key file listed before a good one, expired layout), each time compared with library verification of a byte-identical copy; `sign --verify` with signer / outsider keys, `key id` on a key and on a non-key, `match-products` on untouched and locally changed products compared with InTotoMatchProducts. " +
 			"non-trivial = the chain reached `verify`; distinct = (option set, tampering)",
 		Assumptions: []string{"the inspection of the generated layout runs in the directory `verify` is started in (a separate final-product directory)", "open known finding F6 also shows here: --use-dsse together with -c"},
 		Workers:     func(string) int { return 16 },
